@@ -381,7 +381,7 @@ class Engine(Interp):
                 ctx.emit("unsupported", fn=fr.inst.name, where=fr.body.span_of(bi), what=f"model {m.__name__}: {e}")
         if callee.has_body and callee.body is not None and not (ctx.no_inline and ctx.no_inline(callee)):
             inline = callee.local or callee.nblocks <= 14 or (ctx.hooks.get("inline") and ctx.hooks["inline"](callee))
-            if inline and callee.id not in ctx.stack and len(ctx.stack) < ctx.max_depth:
+            if inline and ctx.stack.count(callee.id) < ctx.hooks.get("rec_depth", 1) and len(ctx.stack) < ctx.max_depth:
                 saved = st.copy()
                 n_obl = len(ctx.obl)
                 try:
@@ -448,6 +448,10 @@ class Engine(Interp):
         ctx = self.ctx
         body = ctx.body(inst)
         # closures called through Fn* traits: spread the argument tuple
+        if (body.arg_count == 2 and len(args) == 2 and type(args[1]) is Ag and len(args[1].f) == 1 and "{closure" in inst.name
+                and self.prog.ty(body.locals[2]["ty"]).tag != "Tuple"):
+            # one-parameter closure called through Fn*::call: the argument arrives as a 1-tuple
+            args = [args[0], args[1].f[0]]
         if body.arg_count != len(args):
             if len(args) == 2 and type(args[1]) is Ag and body.arg_count == 1 + len(args[1].f):
                 args = [args[0]] + list(args[1].f)
